@@ -1,22 +1,18 @@
 (** C03 — property theorems (statements; proofs in C03/Proofs.v).
 
-    Full statement aimed at (DESIGN section 6, C03.1):
-
-      h2_to_h1_unambiguous :
-        accept_h2 hs es = Accept a ->
-        strict_h1 (serialize_h1 a ++ body) = Some [r'] with r' = a in method,
-        target, host, header list and body length.
-
-    What is proved below is its content, split per part of the message, and
-    marked _partial where a part is missing: the request line and every header
-    line sozu writes for an accepted list are read back by the strict reader as
-    exactly the fields sozu understood, because accepted names are non-empty
-    tokens, accepted values contain no CR / LF / NUL / control byte and accepted
-    pseudo-header values contain no SP / control byte.  Missing for the full
-    statement: the Cookie line rebuilt from crumbs (its bytes are a sub-multiset
-    of an accepted value, not proved here), and the composition with
-    [framing_of] / the body reader (exercised by the correspondence run, where
-    the extracted [strict_h1] re-reads every accepted request). *)
+    [h2_to_h1_unambiguous] is the full statement of DESIGN section 6, C03.1: for
+    EVERY HTTP/2 header list that [accept_h2] (the model of
+    pkawa::handle_header) accepts, the strict RFC 9112 reader reads in the bytes
+    of [serialize_h1] (the model of kawa's H1 block converter) exactly ONE
+    request head — the method, target and authority sozu understood, the field
+    list sozu wrote (Host line, every accepted field, the Cookie line rebuilt
+    from the crumbs, the framing field) — and delimits the body by the framing
+    sozu chose (Content-Length n / chunked; nothing at all when END_STREAM was
+    set), whatever follows on the connection.  The content: accepted names are
+    non-empty tokens, accepted values contain no CR / LF / NUL / control byte,
+    accepted pseudo-header values contain no SP / control byte, Host and
+    Transfer-Encoding never come from the client list, Content-Length is one
+    1*DIGIT field whose value is the length sozu recorded. *)
 From Coq Require Import List NArith Bool String.
 From SV Require Import C13.Model C03.Model C03.Proofs.
 Import ListNotations.
@@ -51,18 +47,45 @@ Proof.
   - apply pseudo_ok_no_sp. exact Ha.
 Qed.
 
-(** The header block of an accepted list (no cookies) as written by the H1
-    serialiser is read back, field by field, as the list sozu understood. *)
-Theorem h2_to_h1_unambiguous_partial : forall hs es a rest,
-  accept_h2 hs es = Accept a -> a_jar a = [] ->
-  let fields := ser_h1 (a_items a) false [] in
-  fields = headers_of (a_items a) /\
-  read_headers (S (List.length fields)) (flat_map line_of fields ++ crlf ++ rest) =
-  Some (map (fun h => (fst h, trim_ows (snd h))) fields, rest).
-Proof.
-  intros hs es a rest H _. cbn zeta. rewrite ser_h1_no_cookies. split; [reflexivity|].
-  apply header_block_roundtrip. exact (accepted_items_ok hs es a H).
-Qed.
+(** The whole request written for an accepted list, followed by anything. *)
+Theorem h2_to_h1_unambiguous : forall hs es a fuel rest,
+  accept_h2 hs es = Accept a ->
+  (List.length (written_fields a) < fuel)%nat ->
+  exists fr,
+    (es = true -> fr = FLen 0) /\
+    read_request fuel (serialize_h1 a ++ rest) =
+    match fr with
+    | FLen n =>
+      match (if N.of_nat (List.length rest) <? n then None else take_n (N.to_nat n) rest) with
+      | Some (b, r2) => Some (mkreq (a_method a) (a_path a) (a_authority a) (map trimv (written_fields a)) b [], r2)
+      | None => None
+      end
+    | FChunked =>
+      match read_chunks fuel rest with
+      | Some (b, ts, r2) => Some (mkreq (a_method a) (a_path a) (a_authority a) (map trimv (written_fields a)) b ts, r2)
+      | None => None
+      end
+    end.
+Proof. exact h2_to_h1_read_request. Qed.
+
+(** its parts: the request line splits in exactly three, every field line is read
+    back, exactly one Host (the authority), framing = what sozu recorded *)
+Theorem h2_to_h1_head : forall hs es a fuel rest,
+  accept_h2 hs es = Accept a ->
+  (List.length (written_fields a) < fuel)%nat ->
+  let fr := match h_len (fold_left step hs h_init) with
+            | Some n => FLen n
+            | None => if es then FLen 0 else FChunked end in
+  take_line (serialize_h1 a ++ rest) =
+    Some (a_method a ++ [32] ++ a_path a ++ B " HTTP/1.1",
+          flat_map line_of (written_fields a) ++ crlf ++ rest) /\
+  split_sp (a_method a ++ [32] ++ a_path a ++ B " HTTP/1.1") = [a_method a; a_path a; B "HTTP/1.1"] /\
+  read_headers fuel (flat_map line_of (written_fields a) ++ crlf ++ rest) =
+    Some (map trimv (written_fields a), rest) /\
+  values_of n_host (map trimv (written_fields a)) = [a_authority a] /\
+  framing_of (map trimv (written_fields a)) = Some fr /\
+  (es = true -> fr = FLen 0).
+Proof. exact h2_head_read. Qed.
 
 (** H1 frontend, sozu's OWN acceptance (the callback that sees every parsed
     request before it is forwarded): whatever header list kawa hands over, if
@@ -120,10 +143,12 @@ Example accept_nonvacuous :
   | Accept a => serialize_h1 a =
       B "POST /a?b=c HTTP/1.1" ++ crlf ++ B "Host: example.com" ++ crlf ++ B "accept: */*" ++ crlf ++
       B "x-a: v w" ++ crlf ++ B "content-length: 3" ++ crlf ++ crlf /\
-      option_map (@List.length request) (strict_h1 (serialize_h1 a ++ B "abc")) = Some 1%nat
+      option_map (@List.length request) (strict_h1 (serialize_h1 a ++ B "abc")) = Some 1%nat /\
+      option_map (fun x => (rq_body (fst x), snd x)) (read_request 50 (serialize_h1 a ++ B "abcGET /next")) =
+        Some (B "abc", B "GET /next")
   | Reject => False
   end.
-Proof. vm_compute. split; reflexivity. Qed.
+Proof. vm_compute. repeat split; reflexivity. Qed.
 
 Example smuggling_rejected :
   accept_h2 (ex_hs ++ [(B "x", [97; 13; 10; 69; 58; 32; 49])]) true = Reject /\
